@@ -282,3 +282,8 @@ Definition membership (cs : list comp) : list (string * list string) :=
   map (fun c => (c_name c,
                  sort_names (map d_name (c_states c) ++ map d_name (c_params c)
                              ++ map a_name (c_assigns c)))) cs.
+
+(* ---------- component split (ode_component.to_ode, ODE.__sub__) ---------- *)
+Definition to_ode (c : comp) : ode := ode_of [c].
+Definition minus (cs : list comp) (n : string) : ode :=
+  ode_of (filter (fun c => negb (String.eqb (c_name c) n)) cs).
